@@ -378,8 +378,8 @@ From Coq Require Import String.
 From Toasty Require Import Model.SrcPrelude Model.CliScript Generated.CliCascadeSrc Proofs.CliCascadeP.
 
 Theorem src_cascade_command_is_model :
-  forall (is_none : sval unit -> bool) (eq_lit : sval unit -> string -> bool),
-  run_tree is_none eq_lit src_cli_cascade_impl = cascade_impl_model is_none.
+  forall (is_none : sval unit -> bool) (eq_lit : sval unit -> string -> bool) (is_true : sval unit -> bool),
+  run_tree is_none eq_lit is_true src_cli_cascade_impl = cascade_impl_model is_none.
 Proof. exact src_cascade_impl_eq. Qed.
 Print Assumptions src_cascade_command_is_model.
 
